@@ -11,22 +11,21 @@
      regs_ok app register numbers 0 .. 31;
    initial state: 32 int32 registers, x0 = 0 (each needed: the three ..._refuted examples below).
 
-   STATUS.  The full refinement theorem (mvp63_refines_seq_ssa_straight, stated in the header of
-   Mvp/Mvp63RefProofs.v) is NOT proved.  Proved, for all programs of the class, all order functions,
-   all states satisfying the back-end invariant BI (Mvp63RefInv.v):
-     - the control unit keeps the invariant, forwards only from the UNIQUE earlier writer, keeps the
-       ghost flag clear (the map order of pushedRunnersInPreviousCycle is not observable), and makes
-       progress when nothing is in flight               (C01_mvp63_control_unit_partial, ..._os_clear)
-     - the instruction at the head of the execute bus reads exactly its sequential operands through
-       registerRead (alias tables + forward field) and Run returns the sequential execution record
-                                                        (C01_mvp63_head_operands_partial)
-     - a write unit keeps the invariant                (C01_mvp63_write_unit_partial)
-   plus a 14-instruction example at 1..4 units and both orders (vm_compute), its determinism for ALL
-   orders, and the refutations that make the class boundary sharp. *)
+   STATUS.  The refinement theorem is PROVED for the class (straight-line):
+     C01_mvp63_refines_seq_ssa_straight   Run returns the sequential registers and memory, for every number
+                                          of units, EVERY order function, all fuels from fuel_bound63 on
+     C12_mvp63_run_ssa_straight           ... with the ghost flag clear and ceil(executed / 2) <= cycles
+     C12_mvp63_deterministic_ssa_straight every iteration order gives the sequential state (and the same
+                                          cycle count for orders related by ords_ok3)
+     C12_mvp63_cycles_lower_bound_ssa_straight, C07_mvp63_terminates_ssa_straight, C07_mvp63_no_panic_ssa_straight
+     C01_mvp63_example_any                the 14-instruction example at ANY number of units and ANY order
+   The unit theorems of the first delivery are kept (..._partial): control unit, head operands, write unit.
+   NOT proved: the extension to forward branches / jumps on single-assignment programs (no counterexample
+   in 178 000 programs; see the header of Mvp/Mvp63RefProofs.v for what the proof needs). *)
 From Coq Require Import ZArith List Bool Lia.
 From Maj Require Import Base.Outcome Base.GoInt Base.GoTypes Isa.Spec Isa.Seq Isa.Refine Gen.Opcodes Comp.Rat.
 From Maj Require Import Mvp.Mvp12 Mvp.Mvp12Proofs Mvp.Mvp4Skel Mvp.Mvp60 Mvp.Mvp60RefSem Mvp.Mvp60RefDefs Mvp.Mvp60RefBack Mvp.Mvp60RefStep
-     Mvp.Mvp63 Mvp.Mvp63Proofs Mvp.Mvp63RefDefs Mvp.Mvp63RefInv Mvp.Mvp63RefProofs.
+     Mvp.Mvp63 Mvp.Mvp63Proofs Mvp.Mvp63RefDefs Mvp.Mvp63RefInv Mvp.Mvp63RefExec Mvp.Mvp63RefStep Mvp.Mvp63RefProofs.
 Import ListNotations.
 Open Scope Z_scope.
 
@@ -89,6 +88,139 @@ Theorem C01_mvp63_write_unit_partial : forall app labels regs0 mem0 (ord : Z -> 
       bb_q (m_wbus (x_m x')) = q' /\ bb_buf (m_wbus (x_m x')) = bb_buf (m_wbus (x_m x)).
 Proof. exact wu_take_ok. Qed.
 Print Assumptions C01_mvp63_write_unit_partial.
+
+(* ------------------------------------------------------------------ *)
+(* the refinement theorem on the class                                  *)
+
+(* C01: MVP-6.3 computes the sequential result on single-assignment, register-only, straight-line programs,
+   at every number of execute / write units, for EVERY order function (Go's map iteration), for all fuels
+   from fuel_bound63 (length app) = 400 * length app + 1600 ticks on *)
+Theorem C01_mvp63_refines_seq_ssa_straight : forall app labels, wf_app app ->
+  straight app = true -> reg_only app = true -> ssa app = true -> regs_ok app = true ->
+  forall par fuel st st' tr, (1 <= par)%nat ->
+  Forall int32 (regs st) -> length (regs st) = 32%nat -> nth 0 (regs st) 0 = 0 ->
+  seq_run fuel (map sinstr_of app) labels st = Done st' tr ->
+  forall ord, exists c, forall fuel', (fuel_bound63 (length app) <= fuel')%nat -> mvp63_run par ord fuel' app labels st = MDone c st'.
+Proof. exact mvp63_refines_seq_ssa_straight. Qed.
+Print Assumptions C01_mvp63_refines_seq_ssa_straight.
+
+(* C12: ... with the ghost flag clear on the whole run and at least ceil(executed / 2) cycles *)
+Theorem C12_mvp63_run_ssa_straight : forall app labels, wf_app app ->
+  straight app = true -> reg_only app = true -> ssa app = true -> regs_ok app = true ->
+  forall par fuel st st' tr, (1 <= par)%nat ->
+  Forall int32 (regs st) -> length (regs st) = 32%nat -> nth 0 (regs st) 0 = 0 ->
+  seq_run fuel (map sinstr_of app) labels st = Done st' tr ->
+  forall ord, exists c,
+    (forall fuel', (fuel_bound63 (length app) <= fuel')%nat -> mvp63_run_os par ord fuel' app labels st = (MDone c st', false)) /\
+    Z.of_nat (length tr) <= 2 * c.
+Proof. exact mvp63_run_ssa_straight. Qed.
+Print Assumptions C12_mvp63_run_ssa_straight.
+
+Theorem C12_mvp63_ghost_clear_ssa_straight : forall app labels, wf_app app ->
+  straight app = true -> reg_only app = true -> ssa app = true -> regs_ok app = true ->
+  forall par fuel st st' tr, (1 <= par)%nat ->
+  Forall int32 (regs st) -> length (regs st) = 32%nat -> nth 0 (regs st) 0 = 0 ->
+  seq_run fuel (map sinstr_of app) labels st = Done st' tr ->
+  forall ord fuel', (fuel_bound63 (length app) <= fuel')%nat -> snd (mvp63_run_os par ord fuel' app labels st) = false.
+Proof. exact mvp63_ghost_clear_ssa_straight. Qed.
+
+(* C12: determinism - whatever the iteration orders of Go's maps, Run returns the sequential state; orders that
+   are iteration orders and agree on the alias-table maps give the same cycle count too *)
+Theorem C12_mvp63_deterministic_ssa_straight : forall app labels, wf_app app ->
+  straight app = true -> reg_only app = true -> ssa app = true -> regs_ok app = true ->
+  forall par fuel st st' tr, (1 <= par)%nat ->
+  Forall int32 (regs st) -> length (regs st) = 32%nat -> nth 0 (regs st) 0 = 0 ->
+  seq_run fuel (map sinstr_of app) labels st = Done st' tr ->
+  forall ord1 ord2 fuel', (fuel_bound63 (length app) <= fuel')%nat ->
+  exists c1 c2, mvp63_run par ord1 fuel' app labels st = MDone c1 st' /\ mvp63_run par ord2 fuel' app labels st = MDone c2 st' /\
+                (ords_ok3 ord1 ord2 -> c1 = c2).
+Proof. exact mvp63_deterministic_ssa_straight. Qed.
+Print Assumptions C12_mvp63_deterministic_ssa_straight.
+
+(* C12: whenever the model finishes, with whatever fuel: the sequential state, ceil(executed / 2) <= cycles *)
+Theorem C12_mvp63_cycles_lower_bound_ssa_straight : forall app labels, wf_app app ->
+  straight app = true -> reg_only app = true -> ssa app = true -> regs_ok app = true ->
+  forall par fuel st st' tr, (1 <= par)%nat ->
+  Forall int32 (regs st) -> length (regs st) = 32%nat -> nth 0 (regs st) 0 = 0 ->
+  seq_run fuel (map sinstr_of app) labels st = Done st' tr ->
+  forall ord fuel' c st'', mvp63_run par ord fuel' app labels st = MDone c st'' ->
+  st'' = st' /\ Z.of_nat (length tr) <= 2 * c /\ (Z.of_nat (length tr) + 1) / 2 <= c.
+Proof. exact mvp63_cycles_lower_bound_ssa_straight. Qed.
+Print Assumptions C12_mvp63_cycles_lower_bound_ssa_straight.
+
+(* C07: termination within the bound, no panic, no error *)
+Theorem C07_mvp63_terminates_ssa_straight : forall app labels, wf_app app ->
+  straight app = true -> reg_only app = true -> ssa app = true -> regs_ok app = true ->
+  forall par fuel st st' tr, (1 <= par)%nat ->
+  Forall int32 (regs st) -> length (regs st) = 32%nat -> nth 0 (regs st) 0 = 0 ->
+  seq_run fuel (map sinstr_of app) labels st = Done st' tr ->
+  forall ord, exists c, mvp63_run par ord (fuel_bound63 (length app)) app labels st = MDone c st' /\ (Z.of_nat (length tr) + 1) / 2 <= c.
+Proof. exact mvp63_terminates_ssa_straight. Qed.
+Print Assumptions C07_mvp63_terminates_ssa_straight.
+
+Theorem C07_mvp63_no_panic_ssa_straight : forall app labels, wf_app app ->
+  straight app = true -> reg_only app = true -> ssa app = true -> regs_ok app = true ->
+  forall par fuel st st' tr, (1 <= par)%nat ->
+  Forall int32 (regs st) -> length (regs st) = 32%nat -> nth 0 (regs st) 0 = 0 ->
+  seq_run fuel (map sinstr_of app) labels st = Done st' tr ->
+  forall ord fuel', (fuel_bound63 (length app) <= fuel')%nat ->
+  mvp63_run par ord fuel' app labels st <> MPanic /\ mvp63_run par ord fuel' app labels st <> MOutOfFuel /\
+  (forall e, mvp63_run par ord fuel' app labels st <> MErr e).
+Proof. exact mvp63_no_panic_ssa_straight. Qed.
+Print Assumptions C07_mvp63_no_panic_ssa_straight.
+
+(* non-vacuity of the theorem itself: the 14-instruction example at ANY number of units, for ANY order function *)
+Theorem C01_mvp63_example_any : forall par ord, (1 <= par)%nat ->
+  exists c st', seq_run 100 (map sinstr_of (map instr_of ex63_prog)) no_labels zero32 = Done st' (rev (map (fun k => 4 * Z.of_nat k) (seq 0 14))) /\
+    (forall fuel, (fuel_bound63 14 <= fuel)%nat -> mvp63_run_os par ord fuel (map instr_of ex63_prog) no_labels zero32 = (MDone c st', false)) /\
+    rget (regs st') 18 = 251 /\ 7 <= c.
+Proof. exact mvp63_ssa_example_any. Qed.
+Print Assumptions C01_mvp63_example_any.
+
+(* the steps of the proof, at machine level: executeUnit.Cycle on the head of the execute bus, the loops over the
+   units, one tick of Run in the main loop and in the drain loop after ret *)
+Theorem C01_mvp63_execute_unit : forall app labels regs0 mem0 ord,
+  wf_app app -> straight app = true -> reg_only app = true -> ssa app = true -> regs_ok app = true ->
+  length regs0 = 32%nat -> Forall int32 regs0 -> nth 0 regs0 0 = 0 -> seq_ok app labels regs0 ->
+  forall cy dp d xe w pl pv x e r q',
+    BI app labels regs0 mem0 dp d xe w pl pv x -> bb_q (x_ebus x) = r :: q' -> EuIdle e -> g_seq e = 0 ->
+    bb_canadd (m_wbus (x_m x)) = true ->
+    eu_cycle3 labels ord cy x e =
+      (false, Ok (exec_head app labels regs0 x cy r xe, mk_eu3 ENone [] (Some (recvd r)) 0, out_of app xe)) /\
+    ((forall p, In p pv -> (xe < kq p)%nat) -> is_ret (ik app xe) = false ->
+     BI app labels regs0 mem0 dp d (S xe) w pl pv (exec_head app labels regs0 x cy r xe)).
+Proof.
+  intros app labels regs0 mem0 ord H1 H2 H3 H4 H5 H6 H7 H8 H9 cy dp d xe w pl pv x e r q' HB Hq He Hs Hc. split.
+  - exact (eu_head_eq app labels regs0 mem0 ord H1 H2 H3 H4 H5 H6 H7 H8 H9 cy dp d xe w pl pv x e r q' HB Hq He Hs Hc).
+  - intros Hp Hr. exact (proj1 (BI_exec_head app labels regs0 mem0 ord H1 H2 H3 H4 H5 H6 H7 H8 H9 cy dp d xe w pl pv x r q' HB Hq Hp) Hr).
+Qed.
+Print Assumptions C01_mvp63_execute_unit.
+
+Theorem C01_mvp63_tick_main_loop : forall app labels regs0 mem0 ord,
+  wf_app app -> straight app = true -> reg_only app = true -> ssa app = true -> regs_ok app = true ->
+  length regs0 = 32%nat -> Forall int32 regs0 -> nth 0 regs0 0 = 0 -> seq_ok app labels regs0 ->
+  forall dp d c f xe w s, G3 app labels regs0 mem0 dp d c f xe w s ->
+    (exists s' dp' d' c' f' xe' w', step3 app labels ord s = TCont s' /\ G3 app labels regs0 mem0 dp' d' c' f' xe' w' s' /\ phi3 app s' < phi3 app s) \/
+    (exists r, step3 app labels ord s = TDone r false /\ Fin3 app labels regs0 mem0 r) \/
+    (exists s' w', step3 app labels ord s = TCont s' /\ GR3 app labels regs0 mem0 w' s').
+Proof. exact step_normal3. Qed.
+Print Assumptions C01_mvp63_tick_main_loop.
+
+(* EVIDENCE ONLY (one program, vm_compute) for the extension that is not proved: a single-assignment program with a
+   not-taken and a taken forward branch and a forward jump gives the sequential result at 1..4 units, both orders,
+   ghost flag clear *)
+Theorem C01_mvp63_forward_example :
+  let app := map instr_of fwd63_prog in
+  straight app = false /\ reg_only app = true /\ ssa app = true /\ regs_ok app = true /\ Mvp60RefProofs.fwd_ok app fwd63_labels = true /\
+  exists st' tr,
+    seq_run 100 (map sinstr_of app) fwd63_labels zero32 = Done st' tr /\ length tr = 9%nat /\
+    map (fun k => nth k (regs st') 0) [7; 8; 9; 10; 11]%nat = [4; 0; 9; 0; 11] /\
+    map (fun par => (mvp63_run_os par ord_asc 5000 app fwd63_labels zero32, mvp63_run_os par ord_desc 5000 app fwd63_labels zero32))
+        [1%nat; 2%nat; 3%nat; 4%nat]
+    = [((MDone 335 st', false), (MDone 335 st', false)); ((MDone 333 st', false), (MDone 333 st', false));
+       ((MDone 333 st', false), (MDone 333 st', false)); ((MDone 333 st', false), (MDone 333 st', false))].
+Proof. exact mvp63_forward_ssa_example. Qed.
+Print Assumptions C01_mvp63_forward_example.
 
 (* non-vacuity: 14 instructions, chained RAW dependences, single assignment; 1..4 units, both
    orders: sequential registers, ghost flag clear, ceil(14/2) <= cycles *)
